@@ -19,6 +19,8 @@ _LOGDIR = None
 
 
 def _emit(proc, rec):
+    if _LOGDIR is None:
+        return                       # (the untraced prelude run)
     rec = dict(rec)
     rec["p"] = proc
     with open(os.path.join(_LOGDIR, f"ev_{proc}.ndjson"), "a") as fh:
@@ -141,6 +143,8 @@ class TConn:
             rec["reply"] = "position"
             rec["pos"] = _proj_pos(obj[0])
             rec["tp4"] = _proj_tp4(obj[1])
+            if self.side == "M":
+                _ROUND["tp4"][self.w] = rec["tp4"]          # (what the master knows about chain w in this round: used by the "threshold" draws)
         else:
             rec["reply"] = "chain"
             rec["n"] = int(obj.chain_length)
@@ -154,6 +158,9 @@ class TConn:
         if name in ("conn", "side", "w") or name.startswith("__"):
             raise AttributeError(name)
         return getattr(self.conn, name)
+
+
+_ROUND = {"tp4": {}, "pairs": [], "beta4": []}
 
 
 class MasterRng:
@@ -171,6 +178,16 @@ class MasterRng:
             # just below / just above 2^-k: the decision then changes with any error in the exponent of the exchange rule
             k = int(self.g.integers(1, min(MBITS, 12) + 1))
             i = 2 ** (MBITS - k) - int(self.g.integers(0, 2))
+        elif self.force == "threshold" and _ROUND["pairs"]:
+            # the draw sits exactly ON the acceptance threshold of the pair it decides (the last lattice value that exchanges, or the first that
+            # does not, alternately): any error in the exponent of the exchange rule -- temperatures of the wrong chains, energies -- flips it
+            a, b = _ROUND["pairs"].pop(0)
+            b4, tp4 = _ROUND["beta4"], _ROUND["tp4"]
+            if tp4.get(a) is not None and tp4.get(b) is not None:
+                x = ((b4[a - 1] - b4[b - 1]) * (tp4[a] // b4[a - 1] - tp4[b] // b4[b - 1])) // 4
+                if -MBITS <= x < 0:
+                    self.flip = not getattr(self, "flip", False)
+                    i = 2 ** (MBITS + x) - 1 + (1 if self.flip else 0)
         _emit("M", {"ev": "draw", "i": i})
         return (2 * i + 1) / 2.0 ** (MBITS + 1)
 
@@ -225,6 +242,17 @@ def run(a):
         counter["w"] += 1
         return TConn(x, "M", counter["w"]), TConn(y, "W", counter["w"])
 
+    if a.get("prelude"):
+        # an EARLIER tempering run in the same interpreter (built, stepped, exchanged, shut down) before the observed one is even built: the
+        # observed run must not know about it.  Not traced: its pipes are the library's own.
+        a0 = dict(a, temps=list(a["temps"][:2]), starts=[list(x) for x in a["starts"][:2]], delays=[0.0, 0.0])
+        random.seed(a["seed"] + 1)
+        _LOGDIR = None               # forked workers inherit it: nothing of the prelude is logged
+        pt0 = par.ParallelTempering(build_chains(a0))
+        pt0.take_steps(2)
+        pt0.swap()
+        pt0.shutdown()
+        _LOGDIR = a["out"]
     par.Pipe = traced_pipe
     random.seed(a["seed"])
     chains = build_chains(a)
@@ -232,11 +260,13 @@ def run(a):
     result = {"init": init, "returned": [], "alive_after_shutdown": None, "error": None}
     pt = par.ParallelTempering(chains)
     pt.rng = MasterRng(a["seed"] + 17, a.get("force"))
+    _ROUND["beta4"] = [int(round(4 / t)) for t in a["temps"]]
     real_pairs = pt.tight_pairs
 
     def traced_pairs():
         pairs = real_pairs()                 # the pairs the master proposes in this round, in the order it goes through them
         _emit("M", {"ev": "pairs", "pairs": [[int(i) + 1, int(j) + 1] for i, j in pairs]})
+        _ROUND["pairs"] = [(int(i) + 1, int(j) + 1) for i, j in pairs]
         return pairs
     pt.tight_pairs = traced_pairs
 
